@@ -21,7 +21,7 @@ inductive CState where
 /-- error classes of API results / of the end of the client -/
 inductive Err where
   | ok | timeout | noMoreRetries | connectTimeout | rejected | notRegistered | badState | invalidQos
-  | pingrespTimeout | closed | badTopicId | unhandledPacket | badQos | decode | keepaliveStopped
+  | pingrespTimeout | closed | badTopicId | unhandledPacket | badQos | decode | keepaliveStopped | terminated
   deriving Repr, DecidableEq
 
 structure Cfg where
@@ -99,6 +99,9 @@ structure Wait where
   call : String
   tx : Nat
   kind : WaitKind
+  /-- the call saw the group cancelled while its exchange was unfinished: it now waits for the
+      group to end (`waitTerminated`), whatever happens to the exchange -/
+  committed : Bool := false
   deriving Repr, DecidableEq
 
 structure Cl where
@@ -229,21 +232,25 @@ def connectPkt (c : Cl) : Pkt := .connect c.cfg.will.isSome c.cfg.clean 1 (UInt1
 
 def plainAuth (user pass : Bytes) : Pkt := .auth 0 [0x50, 0x4C, 0x41, 0x49, 0x4E] ([0] ++ user ++ [0] ++ pass)
 
+/-- the CONNECT transaction's own timer (`NewTimedTransaction(ctx, ConnectTimeout, …)`) -/
+def armConnectTimer (c : Cl) (id : Nat) : Cl :=
+  match c.getTx id with
+  | some t => c.setTx { t with timer := if c.alive then some (c.now + c.cfg.ct, .timed) else none }
+  | none => c
+
+/-- CONNECT, then AUTH PLAIN right behind it when a user is configured; the call then waits -/
+def sendConnect (c : Cl) (call : String) (id i : Nat) : Cl :=
+  if c.connClosed then c.emit (.ret call .closed)
+  else
+    let c := c.emit (.sn (encode c.connectPkt))
+    let c := match c.cfg.user with
+      | some u => c.emit (.sn (encode (plainAuth u c.cfg.pass)))
+      | none => c
+    { c with waits := c.waits ++ [{ call := call, tx := id, kind := .connect i }] }
+
 /-- one iteration of `Connect()`'s loop -/
 def connectAttempt (c : Cl) (call : String) (i : Nat) : Cl :=
-  let (id, c) := c.newTx .connect .connect
-  let c := c.store .connect id
-  let c := match c.getTx id with
-    | some t => c.setTx { t with timer := if c.alive then some (c.now + c.cfg.ct, .timed) else none }
-    | none => c
-  let (c, ok) := c.send c.connectPkt
-  if !ok then c.emit (.ret call .closed)
-  else
-    let (c, ok) := match c.cfg.user with
-      | some u => c.send (plainAuth u c.cfg.pass)
-      | none => (c, true)
-    if !ok then c.emit (.ret call .closed)
-    else { c with waits := c.waits ++ [{ call := call, tx := id, kind := .connect i }] }
+  ((((c.newTx .connect .connect).2.store .connect c.nextTx).armConnectTimer c.nextTx).sendConnect call c.nextTx i)
 
 def apiRegister (c : Cl) (call : String) (name : Bytes) : Cl :=
   let (mid, c) := c.nextMsgId
@@ -472,7 +479,10 @@ def handlePacket (c : Cl) (p : Pkt) : Cl :=
             let c := c.deliver topic qos retain data
             let (c, ok) := c.send (.pubcomp mid)
             if ok then c.finishTx t.id .ok else c
-          | none => c)
+          | none =>
+            -- the message cannot be delivered; the exchange is completed all the same
+            let (c, ok) := c.send (.pubcomp mid)
+            if ok then c.finishTx t.id .ok else c)
        | _ => c.sendOrFail (.pubcomp mid))
      | none => c.sendOrFail (.pubcomp mid))
   | .puback _ mid _ =>
@@ -593,42 +603,49 @@ def fireDue (c : Cl) (d : Due) : Cl :=
 /-- API calls return when their transaction is done, or (blocked ones) when the group has ended -/
 def groupDone (c : Cl) : Bool := !c.alive && !c.rxAlive
 
-def settle (c : Cl) : Cl :=
-  let step := fun (c : Cl) (w : Wait) =>
-    match c.getTx w.tx with
-    | some t =>
-      if t.done then
-        match w.kind with
-        | .plain =>
-          if w.call = "#keepalive" then
-            let c := { c with kaPinging := false }
-            if t.err = .ok ∨ t.err = .keepaliveStopped then c
-            else ({ c with kaAlive := false }).cancelGroup t.err
-          else if c.groupDone ∧ t.err ≠ c.groupErr then c.emit (.retEither w.call t.err c.groupErr)
-          else c.emit (.ret w.call t.err)
-        | .connect i =>
-          if c.groupDone ∧ t.err ≠ c.groupErr ∧ t.err ≠ .timeout then c.emit (.retEither w.call t.err c.groupErr)
-          else if t.err = .ok then c.emit (.ret w.call .ok)
-          else if t.err = .timeout then
-            if i + 1 < c.cfg.rc + 1 then c.connectAttempt w.call (i + 1)
-            else c.emit (.ret w.call .connectTimeout)
-          else c.emit (.ret w.call t.err)
-        | .disconnect close =>
-          if c.groupDone ∧ c.groupErr ≠ .ok then
-            -- either branch of the select; Close() does not close the connection on an error
-            let c := if close ∧ (t.err = .ok ∨ t.err = .noMoreRetries) then c else c
-            c.emit (.retEither w.call (if t.err = .noMoreRetries then .ok else t.err) c.groupErr)
-          else if t.err = .ok ∨ t.err = .noMoreRetries then
-            let c := c.cancelGroup .ok
-            let c := if close then { c with connClosed := true } else c
-            c.emit (.ret w.call .ok)
-          else c.emit (.ret w.call t.err)
-      else if c.groupDone then
-        if w.call = "#keepalive" then c else c.emit (.ret w.call c.groupErr)
-      else { c with waits := c.waits ++ [w] }
-    | none => c
-  let ws := c.waits
-  ws.foldl step { c with waits := [] }
+/-- what an API call interrupted by the end of the client returns (`waitTerminated`): never nil -/
+def interrupted (c : Cl) : Err := if c.groupErr = .ok then .terminated else c.groupErr
+
+/-- one blocked API call: it returns when its transaction is done, or when the group has ended;
+    otherwise it keeps waiting -/
+def settleOne (c : Cl) (w : Wait) : Cl :=
+  match c.getTx w.tx with
+  | some t =>
+    if t.done ∧ !w.committed then
+      match w.kind with
+      | .plain =>
+        if w.call = "#keepalive" then
+          let c := { c with kaPinging := false }
+          if t.err = .ok ∨ t.err = .keepaliveStopped then c
+          else ({ c with kaAlive := false }).cancelGroup t.err
+        else if c.groupDone ∧ t.err ≠ c.interrupted then c.emit (.retEither w.call t.err c.interrupted)
+        else c.emit (.ret w.call t.err)
+      | .connect i =>
+        if c.groupDone ∧ t.err ≠ c.interrupted ∧ t.err ≠ .timeout then c.emit (.retEither w.call t.err c.interrupted)
+        else if t.err = .ok then c.emit (.ret w.call .ok)
+        else if t.err = .timeout then
+          if i + 1 < c.cfg.rc + 1 then c.connectAttempt w.call (i + 1)
+          else c.emit (.ret w.call .connectTimeout)
+        else c.emit (.ret w.call t.err)
+      | .disconnect close =>
+        if c.groupDone ∧ c.groupErr ≠ .ok then
+          -- either branch of the select; Close() does not close the connection on an error
+          let c := if close ∧ (t.err = .ok ∨ t.err = .noMoreRetries) then c else c
+          c.emit (.retEither w.call (if t.err = .noMoreRetries then .ok else t.err) c.groupErr)
+        else if t.err = .ok ∨ t.err = .noMoreRetries then
+          let c := c.cancelGroup .ok
+          let c := if close then { c with connClosed := true } else c
+          c.emit (.ret w.call .ok)
+        else c.emit (.ret w.call t.err)
+    else if c.groupDone then
+      if w.call = "#keepalive" then c
+      else match w.kind with
+        | .disconnect _ => c.emit (.ret w.call c.groupErr)      -- Disconnect() reports the group's own result
+        | _ => c.emit (.ret w.call c.interrupted)
+    else { c with waits := c.waits ++ [{ w with committed := w.committed || !c.alive }] }
+  | none => c
+
+def settle (c : Cl) : Cl := c.waits.foldl settleOne { c with waits := [] }
 
 /-- the connection was closed under the receive loop: it ends at once with an error -/
 def afterClose (c : Cl) : Cl :=
